@@ -203,6 +203,26 @@ UNKNOWN = Unknown()
 
 _SAFE_STDLIB = ('fcntl', 'os', 'zlib', 'hashlib')
 
+# Platform model: attribute values that override introspection of the running interpreter's stdlib, e.g.
+# {'fcntl.F_FULLFSYNC': 51} models macOS.  Empty = the platform the check runs on.
+PLATFORM = {}
+
+
+class platform_model:
+    def __init__(self, overrides):
+        self.overrides = dict(overrides)
+
+    def __enter__(self):
+        self.saved = dict(PLATFORM)
+        PLATFORM.update(self.overrides)
+        return self
+
+    def __exit__(self, *a):
+        PLATFORM.clear()
+        PLATFORM.update(self.saved)
+
+
+
 
 def fold(prog: Program, expr, fn: FunctionInfo, env=None, depth=0):
     """Evaluate ``expr`` to a Python constant where possible (module/class constants, literals, platform introspection
@@ -239,6 +259,8 @@ def fold(prog: Program, expr, fn: FunctionInfo, env=None, depth=0):
             return fold(prog, owner.constants[name], _module_fn(prog, owner), {}, depth + 1)
         if isinstance(r, tuple) and r[0] == 'external':
             parts = r[1].split('.')
+            if len(parts) == 2 and f'{parts[0]}.{parts[1]}' in PLATFORM:
+                return PLATFORM[f'{parts[0]}.{parts[1]}']
             m = _stdlib_module(parts[0])
             if m is not None:
                 obj = m
@@ -361,6 +383,9 @@ def fold(prog: Program, expr, fn: FunctionInfo, env=None, depth=0):
             obj = fold(prog, expr.args[0], fn, env, depth + 1)
             name = fold(prog, expr.args[1], fn, env, depth + 1)
             if obj is not UNKNOWN and isinstance(name, str) and (obj is None or getattr(obj, '__name__', None) in _SAFE_STDLIB):
+                pk = f'{getattr(obj, "__name__", None)}.{name}'
+                if pk in PLATFORM:
+                    return True if d == 'hasattr' else PLATFORM[pk]
                 if d == 'hasattr':
                     return hasattr(obj, name)
                 if len(expr.args) == 3:
